@@ -3,7 +3,7 @@ package main
 // op families of integration group I3: the PUBLIC ENTRY POINTS from RAW inputs.
 //
 //	i3.web ((id ign content)…) <url> <src> <type> <cosHost> psl addrs prefixes
-//	       = class|basicText|cosmeticOption|documentText|(generic selectors)|(specific selectors)
+//	       = class|basicText|cosmeticOption|documentText|(generic selectors)|(specific selectors)|hostname,domain,srcHostname,srcDomain,thirdParty
 //	    Go: urlfilter.NewEngine(storage).MatchRequest(rules.NewRequest(url, src, type)) → GetBasicResult
 //	    class, BasicRule / DocumentRule texts, GetCosmeticOption, Engine.GetCosmeticResult(cosHost, option).
 //	    Lean: engineMatchRequest (NewRequest model → storage scan with the modelled NewRule → engine →
@@ -282,7 +282,9 @@ func i3GenWeb(r *rng, n int, w *bufio.Writer) {
 					sel = "()"
 				}
 
-				return fmt.Sprintf("%s|%s|%d|%s|%s", class, i3Text(res.BasicRule), uint32(opt), i3Text(res.DocumentRule), sel)
+				fields := fmt.Sprintf("%s,%s,%s,%s,%s", wb(req.Hostname), wb(req.Domain), wb(req.SourceHostname), wb(req.SourceDomain), wbool(req.ThirdParty))
+
+				return fmt.Sprintf("%s|%s|%d|%s|%s|%s", class, i3Text(res.BasicRule), uint32(opt), i3Text(res.DocumentRule), sel, fields)
 			})
 			addrs, prefixes := i3Oracles(sc, req.Hostname, req.SourceHostname)
 			fmt.Fprintf(w, "i3.web %s %s %s %d %s %s %s %s = %s ## url=%q src=%q type=%d coshost=%q lists: %s\n",
